@@ -24,7 +24,7 @@ PLAN = {
     "thorough": {"shards": 16, "shard_timeout": 3600, "case_timeout": 60, "runs": 1200000, "max_case_timeouts": 10},
 }
 THRESHOLDS = {
-    "quick": {"runs_checked": 600, "budget_checks": 5000, "alg:gp": 100, "alg:rs": 100, "alg:hc": 100, "alg:opo": 100, "kind:evaluation": 200, "kind:target": 100, "kind:anyof": 150, "target_reached_runs": 60, "zero_creation_runs": 10},
+    "quick": {"runs_checked": 600, "budget_checks": 5000, "alg:gp": 100, "alg:rs": 100, "alg:hc": 100, "alg:opo": 100, "kind:evaluation": 200, "kind:target": 100, "kind:anyof": 150, "target_reached_runs": 60, "zero_creation_runs": 10, "selection_after_variation_runs": 40},
     "thorough": {"runs_checked": 15000, "budget_checks": 120000, "zero_creation_runs": 300},
 }
 
@@ -47,7 +47,7 @@ def gen_cases(tier, seed):
             "minimize": rng.random() < 0.5,
             "landscape": rng.choice(["counter", "plateau", "never", "hash"]),
             "target_at": rng.randint(1, 40),
-            "step": rng.choice(["default", "default", "mut", "elitism-only", "cx0-mut0"]) if alg == "gp" else None,
+            "step": rng.choice(["default", "default", "mut", "elitism-only", "cx0-mut0", "mut-then-tournament", "par-mut-then-tournament", "mut-then-elitism"]) if alg == "gp" else None,
             "seed": rng.randrange(10**6),
         }
 
@@ -138,6 +138,10 @@ def run_case(case, rec):
             "mut": ParallelStep([ElitismStep(), SequenceStep(TournamentSelection(2), GenericMutationStep(1.0))], weights=[1, 9]),
             "elitism-only": ElitismStep(),
             "cx0-mut0": SequenceStep(TournamentSelection(2), GenericCrossoverStep(0.0), GenericMutationStep(0.0)),
+            # selection AFTER variation: the step itself meets individuals that have no fitness yet
+            "mut-then-tournament": SequenceStep(GenericMutationStep(1.0), TournamentSelection(2)),
+            "par-mut-then-tournament": ParallelStep([ElitismStep(), SequenceStep(GenericMutationStep(1.0), TournamentSelection(3, with_replacement=True))], weights=[1, 4]),
+            "mut-then-elitism": SequenceStep(GenericMutationStep(1.0), ElitismStep()),
         }[case["step"]]
     alg = {
         "gp": lambda: GeneticProgramming(prob, budget, rep, src, tracker=tracker, population_size=size, step=step),
@@ -178,6 +182,8 @@ def run_case(case, rec):
     # honest counter (C13 decides it in depth; here it anchors the bounds)
     if log[-1]["evals"] != log[-1]["calls"]:
         rec.count("counter_differs_from_invocations")
+    if case.get("step") in ("mut-then-tournament", "par-mut-then-tournament", "mut-then-elitism"):
+        rec.count("selection_after_variation_runs")
     # all checks but the last are false, the last is true
     if not log[-1]["verdict"] or any(e["verdict"] for e in log[:-1]):
         rec.violation("search-continued-after-a-true-check-or-stopped-on-a-false-one", dict(wit, history=hist[-6:]))
@@ -190,6 +196,9 @@ def run_case(case, rec):
             rec.violation(f"evaluation-budget:{'stopped-early' if first is None or first > len(log) - 1 else 'continued-past-first-check-with-n'}:{case['alg']}", dict(wit, history=hist[-6:], first_check_with_n=first))
         elif not (n <= total < n + max(batch, 1)):
             rec.violation(f"evaluation-budget:total-out-of-bounds:{case['alg']}", dict(wit, total=total, bound=[n, n + batch]))
+        elif not (n <= log[-1]["calls"] < n + max(batch, 1)):
+            # the statement bounds the evaluations MADE: fitness invocations the counter does not see still count
+            rec.violation(f"evaluation-budget:invocations-out-of-bounds:{case['alg']}", dict(wit, fitness_invocations=log[-1]["calls"], counter=total, bound=[n, n + batch]))
     elif case["kind"] == "target" and case["landscape"] not in ("never", "hash"):
         first = next((i for i, ok in enumerate(model_target) if ok), None)
         if first != len(log) - 1:
